@@ -19,10 +19,25 @@ import (
 	"github.com/buzzfeed/sso/internal/pkg/validators"
 )
 
-var domainsPool = []string{"example.com", "a.com", "Example.COM", "sub.example.com", "b.org", "évil.com", "İ.com", "x@y.com", "com", ""}
+var domainsPool = []string{"example.com", "a.com", "Example.COM", "sub.example.com", "b.org", "évil.com", "İ.com", "x@y.com", "com", "", "*.example.com", "*.a.com", ".example.com", "*example.com", "example.*"}
 var localPool = []string{"bob", "Bob", "ALICE", "a.b", "", "x+y", "ßig", "İx", "Σ"}
 
+// bare strips wildcard-looking decorations, so look-alikes are also built from the undecorated name
+func bare(d string) string {
+	d = strings.TrimPrefix(d, "*.")
+	d = strings.TrimPrefix(d, "*")
+	d = strings.TrimPrefix(d, ".")
+	return strings.TrimSuffix(d, ".*")
+}
+
 func genEmail(r *c.Rng, doms []string, addrs []string) string {
+	if len(doms) > 0 && r.Chance(0.25) {
+		nd := make([]string, len(doms))
+		for i, d := range doms {
+			nd[i] = bare(d)
+		}
+		doms = nd
+	}
 	switch r.Intn(14) {
 	case 0:
 		return ""
@@ -241,7 +256,7 @@ func genGate(r *c.Rng) gateCase {
 		g.Addrs = genList(r, addrPool, false)
 	}
 	if mask&2 != 0 {
-		g.Doms = genList(r, []string{"a.com", "example.com", "b.com", "B.COM"}, false)
+		g.Doms = genList(r, []string{"a.com", "example.com", "b.com", "B.COM", "*.a.com", "*.example.com"}, false)
 	}
 	if mask&4 != 0 {
 		g.Groups = genList(r, grpPool, false)
